@@ -23,7 +23,7 @@ from campaigns.history import HistoryCampaign, gen_history, shrink_mc
 from simkit import gen
 from simkit.core import VERIF_DIR, RunResult, Violation, classify_exception
 from simkit.simfs import SimDisk
-from simkit.world import FBMonitor, Monitor, make_world
+from simkit.world import scribble, FBMonitor, Monitor, make_world
 
 SEEDS = [0, 0, 1, 2, 12345, 2**32 - 1, 2**32, 2**63, 2**64 - 1]
 
@@ -133,40 +133,6 @@ def _rebuild_from_state(w, sc, disk, holder):
     mc = type(mc0).from_dict(holder["state"], **kw)
     mc.atoms.calc = calcs.make_calc(sc["calc"])
     w.mc, w.atoms, w.calc = mc, mc.atoms, mc.atoms.calc
-
-
-def scribble(w) -> int:
-    """After a simulation has finished, its user edits in place every array it can reach through the public surface
-    (settings, move labels, operation masks, exchange atoms).  A later simulation built with the same seed and
-    configuration in the same process must not notice: nothing may be shared between simulations behind the user's
-    back (default arguments, module-level arrays)."""
-    n = 0
-    mc = w.mc
-    for name in ("external_stress", "delta", "masses_scaling_power", "shaped_masses"):
-        v = getattr(mc, name, None)
-        if isinstance(v, np.ndarray) and v.dtype.kind == "f" and v.flags.writeable:
-            v += 0.37
-            n += 1
-    ex = getattr(mc, "exchange_atoms", None)
-    if ex is not None and len(ex):
-        ex.positions += 0.37
-        n += 1
-    if hasattr(mc, "moves"):
-        from simkit.world import World
-
-        for st in mc.moves.values():
-            for lf in World.leaves_of(st.move):
-                lab = getattr(lf, "labels", None)
-                if isinstance(lab, np.ndarray) and lab.flags.writeable:
-                    lab += 3
-                    n += 1
-                op = getattr(lf, "operation", None)
-                for o in [op] + list(getattr(op, "operations", []) or []):
-                    m = getattr(o, "mask", None)
-                    if isinstance(m, np.ndarray) and m.flags.writeable:
-                        m[...] = ~m
-                        n += 1
-    return n
 
 
 def run_digest(sc: dict, junk: int, holder: dict | None = None) -> dict:
